@@ -20,6 +20,29 @@ if os.path.exists(arg):
         hist, flavour = v[0]["detail"]["history"], v[0]["detail"].get("flavour", "local")
 else:
     hist = arg
+if flavour.endswith("@release"):
+    HARNESS = os.path.join(ROOT, "build", "harness-target", "release", "fi-harness")
+    flavour = flavour.split("@")[0]
+if hist.count(";") < 3 or hist.split(";")[0] not in ("event", "mutex", "semaphore", "mpmc", "oneshot", "state", "timer", "ringbuf", "dlist", "pheap"):
+    # C16: the failing input is a Rust program fragment (an instantiation rustc accepts although
+    # the requirement table forbids it): compile it against /repo with the witness types
+    sys.path.insert(0, os.path.join(ROOT, "tools"))
+    import c16
+    types = c16.load_types()
+    c16.gen_probe(types)
+    main = os.path.join(c16.PROBE, "src", "main.rs")
+    src = open(main).read()
+    head = src[:src.index("fn main() {")]
+    open(main, "w").write(head + "fn main() {\n    " + hist.replace("todo!()", "unsafe { &*(8 as *const _) }") + "\n}\n")
+    env = dict(os.environ, CARGO_NET_OFFLINE="true", CARGO_TARGET_DIR=os.path.join(ROOT, "build", "c16probe-target"), RUSTFLAGS="-A warnings")
+    r = subprocess.run(["cargo", "build", "--offline", "-q"], cwd=c16.PROBE, env=env, capture_output=True, text=True)
+    print("failing input (Rust):", hist)
+    if r.returncode == 0:
+        print("rustc ACCEPTS this program against /repo's current tree: the type-level contract is violated")
+    else:
+        print("rustc REJECTS this program against /repo's current tree (the contract holds for this instance):")
+        print("\n".join(l for l in r.stderr.splitlines() if l.startswith("error"))[:1200])
+    sys.exit(0)
 parts = hist.split(";"); parts[2] = "A"; hist = ";".join(parts)
 subprocess.run([os.path.join(ROOT, "tools", "build_harness.sh")])
 subprocess.run([os.path.join(ROOT, "tools", "build_modelrun.sh")])
